@@ -163,3 +163,27 @@ Definition new_boxed (p : profile) (h : hkind) (T : tdesc) (hdr : list byte)
   n <- t_dstlen T p hdr' ;;
   _ <- assert (t_sizeof T n =? asz) ;;
   Val (hdr' ++ concat slices ++ slice pad 0 (asz - ts)).
+
+(* the offset a TagIter is left with when next() panics: `self.next_tag_offset += to - from` runs before the slice is
+   taken, so a panic of the slice index (or of the unwrap behind it) leaves the advanced offset, an earlier panic the old one *)
+Definition tagiter_left (p : profile) (h : hkind) (m : mem) (b blen nxt : N) : N :=
+  if nxt =? blen then nxt else
+  match (_ <- assert (nxt <? blen) ;;
+         hdr <- mrd m (b + nxt) (hsize h) ;;
+         pl <- payload_len p h hdr ;;
+         ln <- uadd p (hsize h) pl ;;
+         to <- uadd p nxt ln ;;
+         to' <- inc_align p to ;;
+         d <- usub p to' nxt ;;
+         uadd p nxt d) with
+  | Val nxt' => nxt'
+  | _ => nxt
+  end.
+(* next() as a state transition of the iterator: the outcome and the offset afterwards, whatever the outcome *)
+Definition tagiter_step (p : profile) (h : hkind) (m : mem) (b blen nxt : N) : res (option dref) * N :=
+  match tagiter_next p h m b blen nxt with
+  | Val (o, nxt') => (Val o, nxt')
+  | Err e => (Err e, tagiter_left p h m b blen nxt)
+  | Panic => (Panic, tagiter_left p h m b blen nxt)
+  | Fault f => (Fault f, tagiter_left p h m b blen nxt)
+  end.
